@@ -27,6 +27,7 @@ pub fn install_callback() {
     static ONCE: OnceLock<()> = OnceLock::new();
     ONCE.get_or_init(|| {
         tantivy::verif_hooks::set_callback(Some(Arc::new(|_name: &'static str| {
+            crate::props::c02::late_push_point(_name);
             HOLD.with(|h| {
                 if let Some(hold) = h.borrow_mut().as_mut() {
                     hold.seen += 1;
